@@ -246,6 +246,23 @@ func newErrInvalidIdempotencyInputs(idempotencyKey, expectedIdempotencyHash, got
 	}
 }
 
+// MaxIdempotencyKeyLength is the capacity of the column logs.idempotency_key (varchar(255)).
+const MaxIdempotencyKeyLength = 255
+
+// ErrIdempotencyKeyTooLong is used when the idempotency key given by the client cannot be stored.
+type ErrIdempotencyKeyTooLong struct {
+	length int
+}
+
+func (e ErrIdempotencyKeyTooLong) Error() string {
+	return fmt.Sprintf("idempotency key too long: %d characters, at most %d allowed", e.length, MaxIdempotencyKeyLength)
+}
+
+func (e ErrIdempotencyKeyTooLong) Is(err error) bool {
+	_, ok := err.(ErrIdempotencyKeyTooLong)
+	return ok
+}
+
 type ErrSchemaNotFound struct {
 	requestedVersion string
 	latestVersion    *string
